@@ -206,6 +206,15 @@ type c09Room struct {
 	tpi     int // m.room.third_party_invite, state key "tok"
 	extras  []int
 	cands   []c09Cand
+	// a second room in the same pool (same process): create, members, power levels with and
+	// without notification levels, and power_levels events to check there
+	room2 c09Room2
+}
+
+type c09Room2 struct {
+	create, alice, bob int
+	pls               []int // notifications absent / null / room=100
+	cands             []c09Cand
 }
 
 type c09Cand struct {
@@ -247,6 +256,18 @@ func newC09Room(ver gmsl.RoomVersion) *c09Room {
 		"events_default": 50, "state_default": 0, "users_default": 0}, nil))
 	r.pls = append(r.pls, w.mk(spec.MRoomPowerLevels, uAlice, c09sp(""), map[string]interface{}{"users": "oops"}, nil))
 	r.pls = append(r.pls, w.dup(p0))
+	// notification levels (checked from version 6): explicit null, raised, lowered
+	plWith := func(room, sender string, us map[string]interface{}, extra map[string]interface{}) int {
+		m := map[string]interface{}{"users": us, "invite": 50, "ban": 50, "kick": 50, "redact": 50,
+			"events_default": 0, "state_default": 50, "users_default": 0}
+		for k, v := range extra {
+			m[k] = v
+		}
+		return w.mkIn(room, spec.MRoomPowerLevels, sender, c09sp(""), m, nil)
+	}
+	r.pls = append(r.pls, plWith(w.roomID, uAlice, users, map[string]interface{}{"notifications": nil}))
+	r.pls = append(r.pls, plWith(w.roomID, uAlice, users, map[string]interface{}{"notifications": map[string]int{"room": 100}}))
+	r.pls = append(r.pls, plWith(w.roomID, uAlice, users, map[string]interface{}{"notifications": map[string]int{"room": 30}}))
 
 	for _, rule := range c09Rules {
 		c := map[string]interface{}{"join_rule": rule}
@@ -374,7 +395,54 @@ func newC09Room(ver gmsl.RoomVersion) *c09Room {
 	red := w.mk("m.room.redaction", uHeidi, nil, map[string]string{"redacts": "$someone:b"}, nil)
 	cand("redaction-heidi", red)
 	cand("create-again", w.mk(spec.MRoomCreate, uAlice, c09sp(""), cc, nil))
+	// power_levels events that touch (or leave alone) the notification levels
+	notifShapes := []struct {
+		name  string
+		extra map[string]interface{}
+	}{
+		{"resend", nil},
+		{"notif-null", map[string]interface{}{"notifications": nil}},
+		{"notif-room100", map[string]interface{}{"notifications": map[string]int{"room": 100}}},
+		{"notif-room50", map[string]interface{}{"notifications": map[string]int{"room": 50}}},
+		{"notif-room30", map[string]interface{}{"notifications": map[string]int{"room": 30}}},
+		{"notif-room60-other5", map[string]interface{}{"notifications": map[string]int{"room": 60, "other": 5}}},
+	}
+	for _, sh := range notifShapes {
+		cand("pl-bob-"+sh.name, plWith(w.roomID, uBob, users, sh.extra))
+		cand("pl-alice-"+sh.name, plWith(w.roomID, uAlice, users, sh.extra))
+	}
+	// the second room
+	room2 := "!room2:a"
+	c2 := w.mkIn(room2, spec.MRoomCreate, uAlice, c09sp(""), map[string]interface{}{"creator": uAlice, "room_version": string(ver), "predecessor": nil}, nil)
+	if w.domainless {
+		room2 = "!" + w.pool[c2].id[1:]
+	}
+	r.room2.create = c2
+	r.room2.alice = w.mkIn(room2, spec.MRoomMember, uAlice, c09sp(uAlice), map[string]interface{}{"membership": "join"}, []string{w.pool[c2].id})
+	r.room2.bob = w.mkIn(room2, spec.MRoomMember, uBob, c09sp(uBob), map[string]interface{}{"membership": "join"}, nil)
+	r.room2.pls = []int{
+		plWith(room2, uAlice, users, nil),
+		plWith(room2, uAlice, users, map[string]interface{}{"notifications": nil}),
+		plWith(room2, uAlice, users, map[string]interface{}{"notifications": map[string]int{"room": 100}}),
+	}
+	for _, sh := range notifShapes {
+		r.room2.cands = append(r.room2.cands, c09Cand{"room2-pl-bob-" + sh.name, plWith(room2, uBob, users, sh.extra)})
+	}
+	r.room2.cands = append(r.room2.cands, c09Cand{"room2-pl-alice-notif-room100", plWith(room2, uAlice, users, notifShapes[2].extra)})
 	return r
+}
+
+// step2 is one evaluation in the second room: the event against create, power levels pls[pl], sender's membership.
+func (r *c09Room) step2(cd c09Cand, pl int, newProv bool) c09Step {
+	sender := r.room2.bob
+	if string(r.w.pool[cd.ev].pdu.SenderID()) == uAlice {
+		sender = r.room2.alice
+	}
+	p := "same"
+	if newProv {
+		p = "new"
+	}
+	return c09Step{P: p, Set: []int{r.room2.create, r.room2.pls[pl], sender}, Ev: cd.ev}
 }
 
 // slot choices for one step
@@ -452,7 +520,7 @@ func (r *c09Room) randomChoice(c *Ctx, prev *c09Choice) c09Choice {
 		}
 	}
 	if !sticky() {
-		switch k := rng.Intn(12); {
+		switch k := rng.Intn(14); {
 		case k < 5:
 			ch.pl = 0
 		case k < 6:
@@ -461,8 +529,10 @@ func (r *c09Room) randomChoice(c *Ctx, prev *c09Choice) c09Choice {
 			ch.pl = -1
 		case k < 10:
 			ch.pl = 1
-		default:
+		case k < 11:
 			ch.pl = 2
+		default:
+			ch.pl = 4 + rng.Intn(3) // with notification levels
 		}
 	}
 	if !sticky() {
@@ -502,6 +572,10 @@ func (r *c09Room) cand(name string) int {
 }
 
 func (r *c09Room) emitSequence(c *Ctx, steps []c09Step, desc string) {
+	r.emitSteps(c, "C09.sequence", "C09.sequence", "C09.prop.reuse_transparent", steps, desc)
+}
+
+func (r *c09Room) emitSteps(c *Ctx, impl, corr, prop string, steps []c09Step, desc string) {
 	// only the events the sequence uses are passed, re-indexed in order of first use
 	remap := map[int]int{}
 	var used [][]byte
@@ -538,7 +612,7 @@ func (r *c09Room) emitSequence(c *Ctx, steps []c09Step, desc string) {
 	}
 	tj, _ := json.Marshal(tables)
 	args := append([][]byte{B(string(r.w.ver)), sj, tj}, used...)
-	c.Run("C09.sequence", args, "C09.sequence", "C09.prop.reuse_transparent", desc)
+	c.Run(impl, args, corr, prop, desc)
 }
 
 // ---------------------------------------------------------------------------------------------
@@ -638,6 +712,25 @@ func init() {
 		}
 		return args, B(strings.Join(reused, ",") + "|" + strings.Join(oneshot, ","))
 	})
+	// [ver; steps JSON; signature tables (model side only); pool event JSON ...] -> verdicts of plain
+	// one-shot Allowed on every (provider, event) pair of the plan, in order, in this one process:
+	// the same pair occurs several times, other pairs (other rooms included) in between
+	RegisterImpl("C09.repeat", func(args [][]byte) ([][]byte, []byte) {
+		ver := gmsl.RoomVersion(args[0])
+		var steps []c09Step
+		if err := json.Unmarshal(args[1], &steps); err != nil || len(steps) == 0 {
+			return args, B("badsteps")
+		}
+		pool, err := c09PoolFromArgs(ver, args[3:])
+		if err != nil {
+			return args, B("badpool")
+		}
+		out := make([]string, len(steps))
+		for i, st := range steps {
+			out[i] = c09OneShot(pool[st.Ev], c09Pick(pool, st.Set))
+		}
+		return args, B(strings.Join(out, ","))
+	})
 	RegisterProp("C09", genC09)
 }
 
@@ -652,6 +745,82 @@ func genC09(c *Ctx) {
 	genC09AddAuthEvents(c, vers, rooms)
 	genC09Invariance(c, vers, rooms)
 	genC09Sequences(c, vers, rooms)
+	genC09Repeat(c, vers, rooms)
+}
+
+// genC09Repeat: the verdict of an (event, provider) pair is the same on every evaluation in the
+// process, whatever was evaluated in between - in particular power_levels checks that touch the
+// notification levels, in this room and in another one (parsed contents must not share state).
+func genC09Repeat(c *Ctx, vers []gmsl.RoomVersion, rooms map[gmsl.RoomVersion]*c09Room) {
+	isNotif := func(name string) bool { return strings.Contains(name, "pl-") }
+	for _, v := range vers {
+		r := rooms[v]
+		var plc []c09Cand
+		for _, cd := range r.cands {
+			if isNotif(cd.name) {
+				plc = append(plc, cd)
+			}
+		}
+		step1 := func(cd c09Cand, pl int) c09Step {
+			return c09Step{P: "new", Set: r.provider(c, cd.ev, c09Choice{pl: pl, rule: "public"}), Ev: cd.ev}
+		}
+		// directed: Z in room 2 under each current levels event; in between, checks in room 1 (and
+		// in room 2) that parse other notification levels as event under test or as current levels
+		for zpl := range r.room2.pls {
+			for _, z := range r.room2.cands {
+				mids := plc
+				if !c.Thorough() { // a sample in the quick tier, always with the two events that raise notifications.room
+					mids = []c09Cand{plc[c.Rng.Intn(len(plc))], {"pl-bob-notif-room100", r.cand("pl-bob-notif-room100")}, {"pl-alice-notif-room100", r.cand("pl-alice-notif-room100")}}
+				}
+				for _, mid := range mids {
+					for _, midpl := range []int{0, 4, 5, 6} {
+						zs := r.step2(z, zpl, true)
+						steps := []c09Step{zs, step1(mid, midpl), zs, r.step2(r.room2.cands[2], 2, true), zs}
+						r.emitSteps(c, "C09.repeat", "C09.repeat", "C09.prop.same_on_every_evaluation", steps,
+							fmt.Sprintf("repeat v%s: %s under room2 levels #%d; between: %s under levels #%d, then room2 notif-room100", v, z.name, zpl, mid.name, midpl))
+						c.Count("repeat/directed")
+						if !c.Thorough() && c.Rng.Intn(3) > 0 {
+							break
+						}
+					}
+				}
+			}
+		}
+		// the same through one reused context, both rooms interleaved (new provider per room switch)
+		for zpl := range r.room2.pls {
+			for _, z := range r.room2.cands {
+				mid := plc[c.Rng.Intn(len(plc))]
+				midpl := []int{0, 4, 5, 6}[c.Rng.Intn(4)]
+				zs := r.step2(z, zpl, true)
+				m := c09Step{P: "same", Set: r.provider(c, mid.ev, c09Choice{pl: midpl, rule: "public"}), Ev: mid.ev}
+				r.emitSequence(c, []c09Step{zs, m, zs, m, r.step2(r.room2.cands[2], 2, true), zs},
+					fmt.Sprintf("two rooms through one context v%s: %s / %s", v, z.name, mid.name))
+				c.Count("sequence/two-rooms")
+			}
+		}
+		// random plans: 4-10 evaluations drawn from a few pairs, so that pairs repeat
+		n := c.Scale(12, 150)
+		for i := 0; i < n; i++ {
+			var pairs []c09Step
+			for j := 0; j < 2+c.Rng.Intn(3); j++ {
+				switch c.Rng.Intn(3) {
+				case 0:
+					pairs = append(pairs, r.step2(r.room2.cands[c.Rng.Intn(len(r.room2.cands))], c.Rng.Intn(len(r.room2.pls)), true))
+				case 1:
+					pairs = append(pairs, step1(plc[c.Rng.Intn(len(plc))], []int{0, 1, 4, 5, 6, -1}[c.Rng.Intn(6)]))
+				default:
+					cd := r.cands[c.Rng.Intn(len(r.cands))]
+					pairs = append(pairs, step1(cd, []int{0, 4, 5, 6}[c.Rng.Intn(4)]))
+				}
+			}
+			var steps []c09Step
+			for j := 0; j < 4+c.Rng.Intn(7); j++ {
+				steps = append(steps, pairs[c.Rng.Intn(len(pairs))])
+			}
+			r.emitSteps(c, "C09.repeat", "C09.repeat", "C09.prop.same_on_every_evaluation", steps, fmt.Sprintf("repeat random v%s", v))
+			c.Count("repeat/random")
+		}
+	}
 }
 
 func genC09Sequences(c *Ctx, vers []gmsl.RoomVersion, rooms map[gmsl.RoomVersion]*c09Room) {
